@@ -19,8 +19,9 @@ PROP = {
     "assumptions": [
         "parseTokens/stdGrammar describe parser/parser.go + render/blocks.go + tags/standard_tags.go: checked by the "
         "parse stream on every run (tree shape, error kind and line) and by T1 (the table)",
-        "the expression checker chk is a parameter of every theorem; the model driver uses a stub that accepts every "
-        "object, so cases on which expressions.Parse rejects an object are checked against the oracle but not the model",
+        "the expression checker chk is a parameter of every theorem; the model driver instantiates it with objChk, the "
+        "model of expressions.Parse on an object's arguments (ExprParse.lean, itself tied by the eparse stream of C08); "
+        "an object whose literal is outside the lexer model makes the case unmodelled (counted), never accepted",
         "the tokenizer model (scan) is tied separately by the scan stream (C05)",
     ],
 }
